@@ -6,7 +6,13 @@ CONSTANTS
   MaxSpans = 2
   CfgNames = {"ab", "a_rb", "a_ra"}
   Samplers = {"dynamic", "emadynamic", "emathroughput", "windowedthroughput", "totalthroughput"}
-INVARIANTS TypeOK NFSound PermutationInvariant DuplicationInvariant IrrelevantCellsInvariant PairsDistinct OutConsistent
+  GhostFields = {"z"}
+  ProvValSet = {"s:x", "i:7"}
+  ProvMaxSpans = 2
+  ProvCfgNames = {"ab", "a_rb", "a_ra"}
+  ProvUTL = {FALSE}
+  ProvMix = "one"
+INVARIANTS TypeOK NFSound PermutationInvariant DuplicationInvariant IrrelevantCellsInvariant PairsDistinct PayloadSound ProvenanceInvariant AnyProvenanceInvariant OutConsistent
 CHECK_DEADLOCK FALSE
 ACTION_CONSTRAINT Dump
 VIEW View
